@@ -15,6 +15,7 @@ import json
 import numpy as np
 
 ACTIVE = False
+NPINT = False  # whole-number keyword arguments (k, n_splits, shape, size, random_state, ...) handed over as numpy integers instead of Python ints
 EXPLICIT = False  # the converse for options with an explicit spelling that must behave like the default on this image (see EQUIVALENT)
 
 # engine="numpy" is documented as the pure-numpy implementation, which "auto" selects when numba is missing (it is, here)
@@ -82,6 +83,14 @@ def _same(value, default):
     return False
 
 
+def _npint(v):
+    if type(v) is int:
+        return np.int64(v)
+    if type(v) in (tuple, list) and v and all(type(x) is int for x in v):
+        return type(v)(np.int64(x) for x in v)
+    return v
+
+
 class _Proxy:
     """Callable stand-in for a public verde function or class (attribute access is forwarded)."""
 
@@ -95,6 +104,8 @@ class _Proxy:
             kwargs = {k: v for k, v in kwargs.items() if not (k in self._table and _same(v, self._table[k]))}
         if EXPLICIT and self._equivalent and len(args) == 0:
             kwargs = {**self._equivalent, **kwargs}
+        if NPINT:
+            kwargs = {k: _npint(v) for k, v in kwargs.items()}
         return self._target(*args, **kwargs)
 
     def __getattr__(self, name):
@@ -121,6 +132,12 @@ def flag_for(case):
     """Whether this case relies on verde's defaults: a pure function of the case (half of them do)."""
     h = hashlib.sha1(json.dumps(case, sort_keys=True, default=str).encode()).digest()
     return h[0] % 2 == 0
+
+
+def npint_flag_for(case):
+    """Whether this case hands its integer keyword arguments over as numpy integers (a third of the cases)."""
+    h = hashlib.sha1(json.dumps(case, sort_keys=True, default=str).encode()).digest()
+    return h[3] % 3 == 0
 
 
 def explicit_flag_for(case):
